@@ -394,13 +394,19 @@ func (proxy *PgProxy) handleClientPacket(ctx context.Context, packet *PacketHand
 				WithError(err).Errorln("Can't fetch query string from Query packet")
 			return false, err
 		}
+		// If that's some sort of a packet with a query inside it,
+		// process inline data if necessary and remember the query to handle future response.
+		censored, err := proxy.handleQueryPacket(ctx, packet, logger)
+		if err != nil || censored {
+			// the query is not going to be sent to the database, so no response to it will ever come back:
+			// keeping it in the pending list would attribute the next response to this query
+			return censored, err
+		}
 		queryPacket := newQueryPacket(query)
 		if err = proxy.protocolState.pendingQueryPackets.Add(queryPacket); err != nil {
 			return false, err
 		}
-		// If that's some sort of a packet with a query inside it,
-		// process inline data if necessary and remember the query to handle future response.
-		return proxy.handleQueryPacket(ctx, packet, logger)
+		return false, nil
 
 	case BindStatementPacket:
 		// Bound query parameters may contain inline data that we need to process.
